@@ -319,21 +319,42 @@ func (a *layoutAudit) report(c *Ctx, build, metaFn *ssa.Function) {
 		}
 		c.check(okW, "LAYOUT", "wrap width <= 68", pos, "12 + 68 = 80 columns", fmt.Sprintf("metadata is wrapped at %v columns; 12 + width must not exceed 80", a.wrapWidths))
 	}
-	// feature columns
-	if has(a.spaceArgs, 5) || has(a.spaceArgs, 21) || has(a.padWidths, 16) {
-		good := has(a.spaceArgs, 5) && has(a.spaceArgs, 21) && has(a.padWidths, 16)
-		c.check(good, "LAYOUT", "feature key at column 5 padded to 16, qualifiers at column 21", pos, "5 + 16 = 21", fmt.Sprintf("feature table columns: indents %v, pads %v; want indent 5, key padded to 16, qualifier indent 21", a.spaceArgs, a.padWidths))
-	} else {
-		// a changed constant in a recognised construct is evidence; nothing recognised is undecided
-		if len(a.spaceArgs) > 0 && len(a.padWidths) > 0 {
-			c.bad("LAYOUT", "feature key at column 5 padded to 16, qualifiers at column 21", pos, fmt.Sprintf("feature table columns: indents %v, pads %v; want indent 5, key padded to 16, qualifier indent 21", a.spaceArgs, a.padWidths))
-		} else {
-			c.undecided("LAYOUT", "feature key at column 5 padded to 16, qualifiers at column 21", pos, "feature-table column constants not recognised")
+	// feature columns: a recognised constant that is close to, but not, the format's value is evidence;
+	// a missing constant (the column produced another way) is not
+	{
+		near := func(xs []int64, want int64) (int64, bool) {
+			if has(xs, want) {
+				return 0, false
+			}
+			for _, x := range xs {
+				if x != want && x >= want-2 && x <= want+2 {
+					return x, true
+				}
+			}
+			return 0, false
+		}
+		var wrong []string
+		if x, ok := near(a.spaceArgs, 5); ok {
+			wrong = append(wrong, fmt.Sprintf("feature keys are indented by %d, want 5", x))
+		}
+		if x, ok := near(a.spaceArgs, 21); ok {
+			wrong = append(wrong, fmt.Sprintf("qualifier lines are indented by %d, want 21", x))
+		}
+		if x, ok := near(a.padWidths, 16); ok {
+			wrong = append(wrong, fmt.Sprintf("feature keys are padded to %d, want 16 (5 + 16 = 21)", x))
+		}
+		switch {
+		case len(wrong) > 0:
+			c.bad("LAYOUT", "feature key at column 5 padded to 16, qualifiers at column 21", pos, strings.Join(wrong, "; "))
+		case has(a.spaceArgs, 5) && has(a.spaceArgs, 21) && has(a.padWidths, 16):
+			c.ok("LAYOUT", "feature key at column 5 padded to 16, qualifiers at column 21", pos, "5 + 16 = 21")
+		default:
+			c.undecided("LAYOUT", "feature key at column 5 padded to 16, qualifiers at column 21", pos, fmt.Sprintf("feature-table column constants not all recognised (indents %v, pads %v)", a.spaceArgs, a.padWidths))
 		}
 	}
 	// qualifier delimiters
-	if a.consts["/"] || a.consts["=\""] || a.consts["\"\n"] {
-		c.check(a.consts["/"] && a.consts["=\""] && a.consts["\"\n"], "LAYOUT", "qualifier line = /key=\"value\"", pos, "delimiters / =\" \"\\n", fmt.Sprintf("qualifier delimiters present: '/'=%v '=\"'=%v '\"\\n'=%v", a.consts["/"], a.consts["=\""], a.consts["\"\n"]))
+	if a.consts["/"] && a.consts["=\""] && a.consts["\"\n"] {
+		c.ok("LAYOUT", "qualifier line = /key=\"value\"", pos, "delimiters / =\" \"\\n")
 	} else {
 		c.undecided("LAYOUT", "qualifier line = /key=\"value\"", pos, "qualifier delimiters are not separate constants (formatted output?)")
 	}
@@ -362,16 +383,24 @@ func (a *layoutAudit) report(c *Ctx, build, metaFn *ssa.Function) {
 	default:
 		c.check(has(a.numWidth, 9), "LAYOUT", "ORIGIN number right-aligned in 9", pos, "9 columns + one space", fmt.Sprintf("ORIGIN numbers are right-aligned in %v columns; GenBank uses 9", a.numWidth))
 	}
-	hdr := false
+	hdr, hdrWrong := false, ""
 	for s := range a.consts {
-		if strings.HasPrefix(s, "FEATURES") && strings.Contains(s, "Location/Qualifiers") && len(s)-len(strings.TrimLeft(strings.TrimPrefix(s, "FEATURES"), " ")) == 21 {
-			hdr = true
+		if strings.HasPrefix(s, "FEATURES") && strings.Contains(s, "Location/Qualifiers") {
+			if col := len(s) - len(strings.TrimLeft(strings.TrimPrefix(s, "FEATURES"), " ")); col == 21 {
+				hdr = true
+			} else {
+				hdrWrong = fmt.Sprintf("the FEATURES header puts Location/Qualifiers at column %d; the feature table's qualifier column is 21", col)
+			}
 		}
 	}
 	term := a.consts["\n//"] || a.consts["//"] || a.consts["//\n"]
 	orig := a.consts["ORIGIN\n"] || a.consts["ORIGIN"]
-	if hdr || term || orig {
-		c.check(hdr && term && orig, "LAYOUT", "FEATURES header, ORIGIN line and // terminator constants", pos, "section markers are the format's", fmt.Sprintf("section markers present: FEATURES header(21 columns)=%v ORIGIN=%v //=%v", hdr, orig, term))
+	if hdrWrong != "" && !hdr {
+		c.bad("LAYOUT", "FEATURES header, ORIGIN line and // terminator constants", pos, hdrWrong)
+	} else if hdr && term && orig {
+		c.ok("LAYOUT", "FEATURES header, ORIGIN line and // terminator constants", pos, "section markers are the format's")
+	} else if hdr || term || orig {
+		c.undecided("LAYOUT", "FEATURES header, ORIGIN line and // terminator constants", pos, fmt.Sprintf("section markers recognised: FEATURES header(21 columns)=%v ORIGIN=%v //=%v", hdr, orig, term))
 	} else {
 		c.undecided("LAYOUT", "FEATURES header, ORIGIN line and // terminator constants", pos, "section marker constants not found")
 	}
